@@ -97,6 +97,7 @@ class _Checker:
         self.exec_pool = []
         self.sticky = {}
         self.prev = None
+        self.ell_short = False
         self.stats = {"histories": 0, "frames": 0, "err_yes": 0, "err_either": 0, "err_no": 0, "open": 0,
                       "boxchange": 0, "ops": {}}
 
@@ -143,9 +144,13 @@ class _Checker:
                 ctx.nontriv(("initerr", json.dumps(r["md"])))
                 continue
             if mapline.startswith("exc"):
-                ctx.violation("CreateCGTopology:exception", "%s for mapping %s" % (mapline, r["md"]), rep)
+                if not any(bd["sym"] == 3 and len(bd["par"]) < 3 for bd in r["md"]["beads"]):
+                    ctx.violation("CreateCGTopology:exception", "%s for mapping %s" % (mapline, r["md"]), rep)
                 continue
             prevbox = None
+            self.ell_short = any(bd["sym"] == 3 and len(bd["par"]) < 3 for bd in r["md"]["beads"])
+            if self.ell_short:
+                self.stats["ell_short"] = self.stats.get("ell_short", 0) + 1
             self.sticky = {}      # (bead index, what) -> an earlier frame of this object set that flag
             self.prev = None      # (step record, observation) of the previous accepted frame
             for j, st in enumerate(r["h"]):
@@ -177,6 +182,9 @@ class _Checker:
             self.sticky["err"] = True     # beads mapped before the throwing one were updated: flags unknown
             self.prev = None
             if "bigger than half the box" not in o and "bigger than half" not in " ".join(lines):
+                if getattr(self, "ell_short", False):
+                    s["ell_short_refused"] = s.get("ell_short_refused", 0) + 1
+                    return       # an ellipsoidal bead with < 3 parents may be refused
                 ctx.violation("Apply:exception", "%s: unexpected exception %s" % (where, o), rep)
             elif st["err"] == "no":
                 key = "Apply:rejection-open-box" if typ == "open" else "Apply:spurious-rejection:%s" % typ
@@ -301,6 +309,7 @@ class _Checker:
     # ---- several molecule types / definitions / ignored types / CGEngine reuse -------------------------
     def mixed(self, vecs):
         ctx = self.ctx
+        self.ell_short = False
         names = {"A": "MA", "B": "MB", "X": "MX"}
         fl = {"hp": True, "hv": "all", "hf": "all"}
         items = []
@@ -363,7 +372,7 @@ class _Checker:
         for r in hists:
             if len(self.exec_pool) >= limit:
                 return
-            if r["initerr"] or not r["h"]:
+            if r["initerr"] or not r["h"] or any(bd["sym"] == 3 and len(bd["par"]) < 3 for bd in r["md"]["beads"]):
                 continue
             fl = r["h"][0]["fl"]
             if not fl["hp"] or fl["hv"] not in ("all", "none") or any(st["fl"] != fl for st in r["h"]):
@@ -633,7 +642,7 @@ def run(ctx):
         picks = [lambda r: any(s["op"] == "shift" for s in r["h"]) and all(s["err"] == "no" and s["fl"]["hp"] for s in r["h"]), lambda r: any(s["err"] == "yes" for s in r["h"]),
                  lambda r: any(s["typ"] == "open" for s in r["h"]) and len(r["md"]["beads"]) == 2]
         # thorough: one run per mapping definition (keeps the exported histories of one run in memory only)
-        for sel in ([None] if quick else list(range(1, 10))):
+        for sel in ([None] if quick else list(range(1, 11))):
             res = vlib.tlc("cgmap", "MCCg", cfg=cfg, timeout=2400, env=({} if sel is None else {"C01_MD": sel}))
             vlib.tlc_must_hold(res, "CgHist invariants")
             ctx.add_tlc(cfg[:-4] + ("" if sel is None else "[md %d]" % sel), res)
@@ -642,7 +651,7 @@ def run(ctx):
                 raise vlib.InfraError("no histories exported")
             res.out = ""
             chk.histories(hists)
-            chk.collect_exec(hists, (12 if quick else 40) * (1 if sel is None else sel) // (1 if sel is None else 9) + 1)
+            chk.collect_exec(hists, (12 if quick else 40) * (1 if sel is None else sel) // (1 if sel is None else 10) + 1)
             for pick in list(picks):
                 for r in hists:
                     if pick(r):
